@@ -752,12 +752,14 @@ def cases(draw, modes=None, triggers=None, rot=0):
     mode = draw(st.sampled_from(modes or MODES))
     # drawn as "switched off": Hypothesis' first (minimal) example of every shard then has all features ON instead of none
     feat = {f: not draw(st.booleans()) for f in FEATURES[mode]}
+    opts = {k: draw(st.sampled_from(v[rot % len(v):] + v[:rot % len(v)])) for k, v in OPTS[mode].items()}
+    stream = draw(st.lists(st.integers(0, 999), min_size=8, max_size=40))
+    # a trigger is asked for by one draw in four; the request is read off the stream (a separate draw would map many
+    # Hypothesis choice sequences to one and the same case, and Hypothesis then produces exact duplicates)
     avoided = []
-    for t in TRIGGERS[mode]:
-        want = draw(st.integers(0, 3)) == 0
+    for i, t in enumerate(TRIGGERS[mode]):
+        want = stream[-1 - i] % 4 == 0
         feat[t] = bool(want and (triggers or {}).get(t))
         if want and not feat[t]:
             avoided.append(t)
-    opts = {k: draw(st.sampled_from(v[rot % len(v):] + v[:rot % len(v)])) for k, v in OPTS[mode].items()}
-    stream = draw(st.lists(st.integers(0, 999), min_size=8, max_size=40))
     return {'mode': mode, 'feat': feat, 'opts': opts, 'stream': stream, 'avoided': avoided}
